@@ -29,16 +29,15 @@ RULE = ("cases = grid instances (class x shape x spacing template per axis x rad
 ASSUMPTIONS = [
     "operators are (bi)linear in coefficient and field (checked separately by C17b), so the basis decides all fields",
     "a face field that is exactly zero everywhere gives divergenceTerm == 0 (evaluated once per grid)",
-    "bounds: N<=3 cells per axis (thorough: N<=4 on 1-D/2-D), spacing templates U/I (thorough U/G/I)",
+    "bounds: see `bounds.grids`; grids with more cells are evaluated on generic fields (part `big`), not on the full basis",
 ]
 LIMITERS = ['CHARM', 'HCUS', 'HQUICK', 'ospre', 'VanLeer', 'VanAlbada1', 'VanAlbada2', 'MinMod',
             'SUPERBEE', 'Sweby', 'Osher', 'Koren', 'smart', 'MUSCL', 'QUICK', 'UMIST']
 
 
 def bounds(tier):
-    return {"cells_per_axis": "1..3" if tier == "quick" else "1..3 (1-D/2-D: 1..4)",
-            "spacing_templates": ["U", "I"] if tier == "quick" else ["U", "G", "I"],
-            "radial_origin": [0, 0.5], "tvd_field_alphabet": [0, 1, 2]}
+    return {"grids": U.grid_bounds(tier), "thorough_extra": "1-D/2-D shapes with 4 cells in every template" if tier != "quick" else None,
+            "tvd_field_alphabet": [0, 1, 2], "velocity_magnitudes": ["1", "2^-40", "2^-70", "2^50"]}
 
 
 def cases(tier):
